@@ -750,7 +750,19 @@ func c13UntrustedNames(c *Ctx) {
 	tcfg.MapIndexIsSink = false // the duplicate-detection key of ValidatePluginResponses is a comparison, not an access
 	base := tcfg.Sink
 	tcfg.Sink = func(cc *ssa.CallCommon, callee *types.Func, arg int, derived bool) string {
-		// handing a (joined) untrusted name to a bucket is the intended confinement: the bucket validates
+		// handing a (joined) untrusted name to a bucket is the intended confinement: the bucket validates.
+		// Editing the name's characters first is not: what the validator then sees is not what the archive or the
+		// plugin named ("../../x" with its leading dots and slashes trimmed is the harmless-looking "x"), and the
+		// name the property says is rejected is accepted.
+		if callee != nil && callee.Pkg() != nil && !cc.IsInvoke() {
+			if pp := callee.Pkg().Path(); pp == "strings" || pp == "bytes" {
+				if sig, _ := callee.Type().(*types.Signature); sig != nil && sig.Results().Len() > 0 {
+					if b, ok := sig.Results().At(0).Type().Underlying().(*types.Basic); !ok || b.Kind() != types.Bool && b.Info()&types.IsInteger == 0 {
+						return "is edited by " + pp + "." + callee.Name() + " before it is validated: the validator no longer sees the name as given"
+					}
+				}
+			}
+		}
 		return base(cc, callee, arg, false)
 	}
 	tcfg.Propagate = func(cc *ssa.CallCommon, callee *types.Func) bool {
